@@ -344,3 +344,18 @@ Print Assumptions C10_dispatch.
 Print Assumptions C10_dispatch_empty.
 Print Assumptions C10_dispatch_filename.
 Print Assumptions C10_pure.
+
+(* ---- the encoding decision of the model IS reader.open_with_codecs as it stands today ---------------
+   Model/Channels.open_with_codecs (choose_encoding: the BOM probe on the first min(32, size) bytes, an explicit
+   encoding, chardet on the first autodetect_encoding_chars bytes, the ad-hoc list, then io.open with the chosen
+   encoding) equals, for every path, keyword arguments and world, the function re-translated on this run from
+   /repo (py_open_with_codecs in Gen/Funcs.v) with os.path.getsize / open / get_encoding / adhoc_test_encoding /
+   io.open read through the model's world (Proofs/FuncsPinCodecs.v: model_world).  None = the call raises. *)
+From Coq Require Import ZArith.
+Require Import Funcs FuncsPinCodecs.
+Theorem C10_open_with_codecs_current : forall fs decode chardet_installed chardet_detect readline_ok locale_encoding unl p k,
+  py_open_with_codecs (model_world fs decode chardet_installed chardet_detect readline_ok locale_encoding unl)
+    p (kw_encoding k) (kw_errors k) (pyauto (kw_auto k)) (option_map Z.of_N (kw_nchars k))
+  = ok_of (open_with_codecs fs decode chardet_installed chardet_detect readline_ok locale_encoding unl p k).
+Proof. exact open_with_codecs_pin. Qed.
+Print Assumptions C10_open_with_codecs_current.
